@@ -201,13 +201,175 @@ fn enumerate(t: Tier) -> Box<dyn Iterator<Item = Case>> {
     }))
 }
 
+
+// ---------------------------------------------------------------------------
+// large scale: pattern lengths across the threshold ladder (255..257 ... 65535..65537), structured
+// and random patterns, texts with planted occurrences at arbitrary offsets and overlaps
+
+pub mod large {
+    use super::*;
+    use crate::oracles::prng::{ladder_label, Sm, LADDER};
+    use crate::oracles::z_find;
+
+    #[derive(Serialize, Deserialize, Debug, Clone)]
+    pub struct Case {
+        /// pattern length
+        pub m: usize,
+        /// 0 random, 1 periodic (unit 1..4), 2 distinct head + homopolymer + distinct tail,
+        /// 3 homopolymer + distinct last symbol, 4 nested borders (aab)^k a.., 5 all 256 byte values cycling
+        pub kind: u8,
+        pub sigma: u16,
+        pub seed: u64,
+        /// lengths of the filler stretches between planted copies (in units scaled by the pattern length: len = gap * m / 64)
+        pub gaps: Vec<u16>,
+        /// for each planted copy after the first: overlap with the previous copy as a fraction of the pattern's period structure (0 = none)
+        pub overlaps: Vec<u16>,
+        /// filler: 0 random over the alphabet, 1 a constant symbol that does not occur in the pattern, 2 the pattern's first symbol repeated
+        pub filler: u8,
+    }
+
+    pub fn pattern(c: &Case) -> Vec<u8> {
+        let mut g = Sm::new(c.seed);
+        let m = c.m;
+        match c.kind {
+            0 => g.bytes(m, c.sigma, b'a'),
+            1 => {
+                let u = 1 + g.below(4) as usize;
+                let unit = g.bytes(u, c.sigma.min(4), b'a');
+                unit.iter().cycle().take(m).cloned().collect()
+            }
+            2 => {
+                let mut p = vec![b'a'; m];
+                p[0] = b'x';
+                p[m - 1] = b'b';
+                p
+            }
+            3 => {
+                let mut p = vec![b'a'; m];
+                p[m - 1] = b'b';
+                p
+            }
+            4 => {
+                let mut p: Vec<u8> = b"aab".iter().cycle().take(m).cloned().collect();
+                let k = (m / 5).max(1);
+                for x in p.iter_mut().rev().take(k) {
+                    *x = b'a';
+                }
+                p
+            }
+            _ => (0..m).map(|i| (i % 256) as u8).collect(),
+        }
+    }
+
+    pub fn text(c: &Case, p: &[u8]) -> Vec<u8> {
+        let mut g = Sm::new(c.seed ^ 0xabcdef);
+        let m = p.len();
+        let mut t = Vec::new();
+        for (i, gap) in c.gaps.iter().enumerate() {
+            let len = (*gap as usize * m) / 64;
+            match c.filler {
+                0 => t.extend(g.bytes(len, c.sigma, b'a')),
+                1 => t.extend(std::iter::repeat(b'~').take(len)),
+                _ => t.extend(std::iter::repeat(p[0]).take(len)),
+            }
+            // planted copy, possibly overlapping the previous one (only meaningful directly after a copy)
+            let ov = if len == 0 && i > 0 { crate::engine::gen::idx(c.overlaps.get(i).copied().unwrap_or(0), m - 1) } else { 0 };
+            if ov > 0 && t.len() >= ov && t[t.len() - ov..] == p[..ov] {
+                t.extend_from_slice(&p[ov..]);
+            } else {
+                t.extend_from_slice(p);
+            }
+        }
+        t
+    }
+
+    pub fn check(c: &Case) -> R {
+        ensure!(c.m >= 1 && c.m <= 140_000 && c.gaps.len() <= 8, "harness: case outside the large-scale domain");
+        let p = pattern(c);
+        let t = text(c, &p);
+        let expect = z_find(&p, &t);
+        // the linear-time oracle is itself cross-checked on a prefix window
+        if p.len() <= 300 && t.len() <= 3000 {
+            let naive = naive_find(&p, &t);
+            ensure!(naive == expect, "harness oracle self-check failed (z_find vs naive) for m={} — not a finding about rust-bio", p.len());
+        }
+        let what = |name: &str, got: &[usize]| format!("{} with pattern length {} (kind {}, sigma {}, seed {}) on a text of {} symbols: got {} occurrences {:?}.., expected {} occurrences {:?}..", name, p.len(), c.kind, c.sigma, c.seed, t.len(), got.len(), &got[..got.len().min(6)], expect.len(), &expect[..expect.len().min(6)]);
+        let cap = t.len() + 2;
+        // Horspool and BOM are quadratic in the worst case (window verification of O(m) at O(n) positions:
+        // many overlapping occurrences, or a filler equal to the pattern's homopolymer body). Such inputs
+        // are legitimate but would take minutes at these sizes; only the linear-time KMP is run on them.
+        let est = if c.filler == 2 { t.len() as u64 * p.len() as u64 } else { (expect.len() as u64 + c.gaps.len() as u64) * p.len() as u64 };
+        let heavy = est > 150_000_000;
+        if heavy {
+            let kmp = KMP::new(&p);
+            let got: Vec<usize> = kmp.find_all(t.iter()).take(cap).collect();
+            ensure!(got == expect, "{}", what("KMP", &got));
+            let mut pass = Pass::new(!expect.is_empty());
+            if let Some(l) = ladder_label(c.m) {
+                pass.add(l);
+            }
+            pass.add("quadratic worst case for Horspool/BOM: KMP only");
+            return Ok(pass);
+        }
+        // BOM allocates one table row per pattern symbol, each as wide as the largest symbol value
+        if c.m <= 20_000 {
+            let bom = BOM::new(&p[..]);
+            let got: Vec<usize> = bom.find_all(&t).take(cap).collect();
+            ensure!(got == expect, "{}", what("BOM", &got));
+        }
+        let hp = Horspool::new(&p);
+        let got: Vec<usize> = hp.find_all(&t).take(cap).collect();
+        ensure!(got == expect, "{}", what("Horspool", &got));
+        let kmp = KMP::new(&p);
+        let got: Vec<usize> = kmp.find_all(t.iter()).take(cap).collect();
+        ensure!(got == expect, "{}", what("KMP", &got));
+        // reuse: second text = first half
+        let half = &t[..t.len() / 2];
+        let e2 = z_find(&p, half);
+        let got: Vec<usize> = hp.find_all(half).take(cap).collect();
+        ensure!(got == e2, "Horspool reused on a second text: {} vs {} occurrences (m={})", got.len(), e2.len(), p.len());
+        let got: Vec<usize> = kmp.find_all(half.iter()).take(cap).collect();
+        ensure!(got == e2, "KMP reused on a second text: {} vs {} occurrences (m={})", got.len(), e2.len(), p.len());
+        let mut pass = Pass::new(!expect.is_empty());
+        if let Some(l) = ladder_label(c.m) {
+            pass.add(l);
+        }
+        pass.add_if(c.m > 256, "pattern longer than 256");
+        pass.add_if(c.m > 65536, "pattern longer than 65536");
+        pass.add_if(expect.windows(2).any(|w| w[1] - w[0] < p.len()), "overlapping occurrences");
+        pass.add_if(expect.len() >= 2, "several occurrences");
+        pass.add_if(c.m <= 20_000, "BOM included");
+        match c.kind {
+            0 => pass.add("random pattern"),
+            1 => pass.add("periodic pattern"),
+            2 => pass.add("distinct head and tail around a homopolymer"),
+            3 => pass.add("homopolymer with distinct last symbol"),
+            4 => pass.add("nested borders"),
+            _ => pass.add("all byte values"),
+        }
+        Ok(pass)
+    }
+
+    pub fn strat(_t: Tier) -> BoxedStrategy<Case> {
+        let m = prop_oneof![
+            6 => proptest::sample::select(LADDER.to_vec()),
+            2 => 258usize..=1100,
+            1 => 1100usize..=9000,
+        ];
+        (m, 0u8..=5, prop_oneof![Just(2u16), Just(4), Just(256)], any::<u64>(), proptest::collection::vec(prop_oneof![2 => Just(0u16), 3 => 0u16..=64, 2 => 64u16..=200], 1..=5), proptest::collection::vec(any::<u16>(), 5), 0u8..=2)
+            .prop_map(|(m, kind, sigma, seed, gaps, overlaps, filler)| Case { m, kind, sigma, seed, gaps, overlaps, filler })
+            .boxed()
+    }
+}
+
 pub fn property() -> Property {
     Property {
         id: "C08",
         rule: "random: pattern (random or periodic, lengths forced to 1..8, 31..33, 62..64, 65..70) and 1-3 texts assembled from random chunks, whole copies, prefixes and suffixes of the pattern over alphabets of 1,2,3,4,256 symbols; exhaustive: every (pattern,text) over {a,b} / {a,b,c} up to the stated lengths. All five matchers are run on every case, one matcher object over all texts plus the first text again; oracle = naive window scan. Non-trivial = pattern length >= 2 and at least one occurrence; distinct = distinct serialised (pattern, texts).",
         assumptions: &["patterns are non-empty; ShiftAnd/BNDM are only given patterns of at most 64 symbols (documented limit)"],
         subs: vec![
-            Box::new(PropSub { name: "C08/random", quick: 400_000, thorough: 6_000_000, shards_quick: 8, shards_thorough: 16, strat, check, must_reach: &["m=64", "overlapping occurrences", "text shorter than pattern", "m>64 (BOM/Horspool/KMP only)"], watch: false }),
+            Box::new(PropSub { name: "C08/random", quick: 1_200_000, thorough: 6_000_000, shards_quick: 16, shards_thorough: 16, strat, check, must_reach: &["m=64", "overlapping occurrences", "text shorter than pattern", "m>64 (BOM/Horspool/KMP only)"], watch: false }),
+            Box::new(PropSub { name: "C08/large", quick: 800, thorough: 40_000, shards_quick: 16, shards_thorough: 16, strat: large::strat, check: large::check, must_reach: &["size in 255..257", "size in 511..513", "size in 4095..4097", "size in 8191..8193", "size in 65535..65537", "size in 131071..131073", "pattern longer than 65536", "overlapping occurrences", "distinct head and tail around a homopolymer", "BOM included"], watch: true }),
             Box::new(ExhSub { name: "C08/exhaustive", enumerate, check, must_reach: &[] }),
         ],
     }
